@@ -439,32 +439,39 @@ def checkWaitRecommendation (s : P2P) : M P2P := do
       (.waitRecommendation s.framesAhead.toNat)
   else return s
 
+/-- The frame the next checksum report is about. -/
+def nextReportFrame (s : P2P) (interval : Nat) : Frame :=
+  if s.lastSentChecksumFrame == NULL_FRAME then (interval : Int) else s.lastSentChecksumFrame + (interval : Int)
+
+/-- The saved state whose checksum the next report carries, if the report is due: the cell of the
+report frame, or (with sparse saving) the newest saved state between it and the confirmed frame. -/
+def checksumCellToReport (s : P2P) (interval : Nat) : M (Option Cell) := do
+  let frameToSend := s.nextReportFrame interval
+  if frameToSend ≤ s.sync.lastConfirmedFrame then
+    let direct ← s.sync.savedStateByFrame frameToSend
+    return match direct with
+      | some c => some c
+      | none => s.sync.latestSavedStateInRange frameToSend s.sync.lastConfirmedFrame
+  else return none
+
 def checkChecksumSendInterval (s : P2P) (now : Nat) : M P2P := do
   match s.desync with
   | none => return s
   | some interval =>
-    let frameToSend : Frame := if s.lastSentChecksumFrame == NULL_FRAME then interval
-      else s.lastSentChecksumFrame + interval
-    if frameToSend ≤ s.sync.lastConfirmedFrame then
-      let direct ← s.sync.savedStateByFrame frameToSend
-      let cell := match direct with
-        | some c => some c
-        | none => s.sync.latestSavedStateInRange frameToSend s.sync.lastConfirmedFrame
-      match cell with
+    match ← s.checksumCellToReport interval with
+    | none => return s
+    | some cell =>
+      match cell.checksum with
       | none => return s
-      | some cell =>
-        match cell.checksum with
-        | none => return s
-        | some checksum =>
-          let f := cell.frame
-          let remotes := s.remotes.map fun (a, e) => (a, e.sendChecksumReport now f checksum)
-          let hist := ainsert f checksum s.localChecksumHistory
-          let hist := if hist.length > MAX_CHECKSUM_HISTORY_SIZE then
-              let oldest : Int := f - ((MAX_CHECKSUM_HISTORY_SIZE : Int) - 1) * (interval : Int)
-              hist.filter fun p => p.1 ≥ oldest
-            else hist
-          return { s with remotes, lastSentChecksumFrame := f, localChecksumHistory := hist }
-    else return s
+      | some checksum =>
+        let f := cell.frame
+        let remotes := s.remotes.map fun (a, e) => (a, e.sendChecksumReport now f checksum)
+        let hist := ainsert f checksum s.localChecksumHistory
+        let hist := if hist.length > MAX_CHECKSUM_HISTORY_SIZE then
+            let oldest : Int := f - ((MAX_CHECKSUM_HISTORY_SIZE : Int) - 1) * (interval : Int)
+            hist.filter fun p => p.1 ≥ oldest
+          else hist
+        return { s with remotes, lastSentChecksumFrame := f, localChecksumHistory := hist }
 
 def compareLocalChecksumsAgainstPeers (s : P2P) : P2P :=
   match s.desync with
